@@ -583,6 +583,17 @@ def _f79(vio):
     return False
 
 
+@mechanism("F80-layoutbuilder-nested-forms")
+def _f80(vio):
+    """the Form-driven LayoutBuilder of 1.4.0 (an experimental class) on Forms that nest structural nodes beyond the
+    shapes its own tests show: a second list level, regular/option/union/record nodes below lists or records, masked
+    wrappers over non-leaf nodes"""
+    case = vio.get("case") or {}
+    if case.get("mode") != "layoutbuilder" or case.get("simple") is not False:
+        return False
+    return vio.get("kind", "").startswith("layoutbuilder-") or vio.get("kind") in ("process-death", "hang")
+
+
 @mechanism("F10-reduce-nonlocal")
 def _f10(vio):
     rep = _report(vio)
